@@ -4,7 +4,9 @@ Monitor: (a) the observables a real `MPSConfig` / `SVConfig` holds (i.e. the mon
 backends call) are applied directly to random states of each representation - normalised, unnormalised, MPS with
 the orthogonality centre anywhere or undeclared, MPS/MPO padded with dark atoms - and compared with the dense
 definitions; (b) physical ranges; (c) in situ: short emu-mps / emu-sv runs with the observables listed in random
-order (each observable sees the state as its predecessors left it), stored values recomputed from exact evolution.
+order (each observable sees the state as its predecessors left it), stored values recomputed from exact evolution;
+(d) hook around `MPSBackendImpl.fill_results` in quantum-jump runs with dark atoms: what the call stores must equal
+the definition on the solver's raw state, normalised and padded with dark atoms.
 """
 import numpy as np
 
@@ -22,7 +24,7 @@ LEVEL_NOTE = "For a state handed over unnormalised the literal <phi|O|phi> is th
 RULE = "(representation, N, centre, normalised?, dark mask, observable order); distinct = that + hash; non-trivial = bond dimension > 1 / entangled state and complex amplitudes"
 ASSUMPTIONS = ["dense definitions from vlib/ref.py; H^2 expectation on MPS carries the 1e-5 MPO truncation (tolerance 1e-4*(1+|H|^2))",
                "variance >= -1e-6*(1+E^2) (rounding / MPO truncation)"]
-REQUIRED = ["mps_direct", "sv_direct", "dm_direct", "dark_padded", "insitu_runs", "range_checks", "nonzero_centre_cases"]
+REQUIRED = ["mps_direct", "sv_direct", "dm_direct", "dark_padded", "insitu_runs", "range_checks", "nonzero_centre_cases", "hooked_fill_results", "hooked_unnormalised_states"]
 SHARD_TIMEOUT = {"quick": 1700, "thorough": 5 * 3600}
 
 
@@ -30,8 +32,10 @@ def gen_cases(tier, seed):
     rng = np.random.default_rng(seed)
     a = 36 if tier == "quick" else 500
     b = 12 if tier == "quick" else 200
+    c = 12 if tier == "quick" else 160
     return ([{"kind": "direct", "seed": int(rng.integers(1 << 30)), "count": 6} for _ in range(a)]
-            + [{"kind": "insitu", "seed": int(rng.integers(1 << 30)), "backend": "mps" if i % 3 else "sv"} for i in range(b)])
+            + [{"kind": "insitu", "seed": int(rng.integers(1 << 30)), "backend": "mps" if i % 3 else "sv"} for i in range(b)]
+            + [{"kind": "hooked", "seed": int(rng.integers(1 << 30)), "dark": ["first", "middle", "last", "none"][i % 4], "noisy": bool(i % 3 != 2)} for i in range(c)])
 
 
 def _params(rng, n):
@@ -309,5 +313,122 @@ def _insitu(case):
             "sample": {"kind": "insitu", "backend": case["backend"], "spec": spec, "observable_order": [o.tag for o in obs]} if case["idx"] % 6 == 0 else None}
 
 
+def _hooked(case):
+    """emu-mps runs with quantum-jump noise (the norm of the state drops between jumps) and/or dark atoms: a hook around
+    `fill_results` takes the solver's raw state before the call and compares what the call stored with the definition on
+    the normalised state padded with dark atoms (the moment where 'the current state' becomes observable)."""
+    import emu_mps
+    import emu_mps.mps_backend_impl as mpi
+    from pulser import NoiseModel
+
+    from vlib.props.C25 import Inject
+
+    rng = np.random.default_rng(case["seed"])
+    cnt = {k: 0 for k in REQUIRED}
+    cnt.update(hooked_fill_results=0, hooked_unnormalised_states=0)
+    viol, worst = [], {}
+    n = int(rng.integers(3, 6))
+    dark = case["dark"]
+    mask = [False] * n
+    if dark == "first":
+        mask[0] = True
+    elif dark == "last":
+        mask[-1] = True
+    elif dark == "middle":
+        mask[n // 2] = True
+    if dark != "none" and n >= 4 and rng.random() < 0.4:
+        mask[int(rng.integers(n))] = True
+    if sum(not m for m in mask) < 2:
+        mask = [False] * n
+        mask[0] = True
+    spec = seqgen.random_spec(rng, n=n, basis="ising", dmin=7.8, spread=0.6, local=False, max_dur=160, min_dur=80, n_pulses=int(rng.integers(1, 3)), amp_max=9.0, det_max=6.0,
+                              shuffle_ids=False, layout="line", wf_kinds=["const", "ramp"], delays=False)
+    seq = seqgen.build(spec)
+    times = [0.25, 0.5, 0.75, 1.0]
+    obs = [emu_mps.Occupation(evaluation_times=times), emu_mps.CorrelationMatrix(evaluation_times=times), emu_mps.Energy(evaluation_times=times)]
+    obs = [obs[i] for i in rng.permutation(3)]
+    nk = {}
+    if case["noisy"]:
+        nk.update(relaxation_rate=float(rng.uniform(1.0, 4.0)), dephasing_rate=float(rng.uniform(0.2, 2.0)))
+    if any(mask):
+        nk.update(state_prep_error=0.3, p_false_pos=0.0, p_false_neg=0.0)
+    if not nk:
+        nk.update(relaxation_rate=2.0)
+    fp = f"hooked:n{n}:dark-{dark}:{''.join('1' if m else '0' for m in mask)}:noisy{int(case['noisy'])}"
+    cfg = emu_mps.MPSConfig(dt=5.0, precision=1e-8, observables=obs, noise_model=NoiseModel(**nk), n_trajectories=1, log_level=e2e.quiet(), num_gpus_to_use=0, optimize_qubit_ordering=False)
+    rec = []
+    orig = mpi.MPSBackendImpl.fill_results
+
+    def hooked(impl):
+        frac = impl.current_time / impl.target_times[-1]
+        raw = tn.dense(impl.state)
+        flt = None if impl.well_prepared_qubits_filter is None else [bool(x) for x in impl.well_prepared_qubits_filter]
+        hd = ref.mpo_to_dense([ref.t2n(f) for f in impl.hamiltonian.factors]) if len(impl.state.factors) <= 6 else None
+        r = orig(impl)
+        got = {}
+        for tag in ("occupation", "correlation_matrix", "energy"):
+            try:
+                ts = [float(t) for t in impl.results.get_result_times(tag)]
+            except Exception:
+                continue
+            for t in ts:
+                if abs(t - frac) < 1e-9:
+                    got[tag] = e2e.to_np(impl.results.get_result(tag, t)).astype(float)
+        if got:
+            rec.append((frac, raw, flt, hd, got))
+        return r
+
+    mpi.MPSBackendImpl.fill_results = hooked
+    try:
+        random_seed = case["seed"] % (2 ** 31)
+        import random
+
+        import torch
+
+        random.seed(random_seed)
+        torch.manual_seed(random_seed)
+        with Inject(mask if any(mask) else [False] * n):
+            emu_mps.MPSBackend(seq, config=cfg).run()
+    except Exception as e:
+        cnt["insitu_runs"] += 1
+        return {"fp": fp, "nontrivial": False, "violations": [{"key": f"C13:hooked-run-raises:{type(e).__name__}", "msg": f"{fp}: {e}"[:300], "detail": {"spec": spec}}], "counters": cnt, "max": worst, "sample": None}
+    finally:
+        mpi.MPSBackendImpl.fill_results = orig
+    cnt["insitu_runs"] += 1
+    for frac, raw, flt, hd, got in rec:
+        cnt["hooked_fill_results"] += 1
+        nrm2 = float(np.vdot(raw, raw).real)
+        if abs(nrm2 - 1) > 1e-6:
+            cnt["hooked_unnormalised_states"] += 1
+        psi = raw / np.sqrt(nrm2)
+        good = [i for i in range(n)] if flt is None else [i for i, b in enumerate(flt) if b]  # well_prepared_qubits_filter: True = well prepared
+        m = len(good)
+        occ_g = ref.occupations(psi, m, 2)
+        corr_g = ref.correlations(psi, m, 2)
+        occ = np.zeros(n)
+        corr = np.zeros((n, n))
+        for a_, ia in enumerate(good):
+            occ[ia] = occ_g[a_]
+            for b_, ib in enumerate(good):
+                corr[ia, ib] = corr_g[a_, b_]
+        want = {"occupation": occ, "correlation_matrix": corr}
+        if hd is not None:
+            want["energy"] = np.asarray(float(np.real(np.vdot(psi, hd @ psi))))
+        for tag, g in got.items():
+            if tag not in want:
+                continue
+            cnt["range_checks"] += 1
+            scale = 1.0 if tag != "energy" else 1.0 + abs(float(want[tag]))
+            dev = float(np.abs(np.asarray(g) - want[tag]).max()) / scale
+            worst["hooked_dev"] = max(worst.get("hooked_dev", 0.0), dev)
+            if g.shape != np.shape(want[tag]) or dev > 1e-7:
+                how = "scaled-by-squared-norm" if abs(nrm2 - 1) > 1e-6 and float(np.abs(np.asarray(g) - nrm2 * want[tag]).max()) / scale < 1e-6 else "values"
+                viol.append({"key": f"C13:stored-value-differs-from-definition-on-normalised-current-state:{tag}:{how}",
+                             "msg": f"{fp}: t={frac:.3g} |psi|^2={nrm2:.6f} max dev {dev:.3e}", "detail": {"spec": spec, "mask": mask}})
+                break
+    return {"fp": fp, "nontrivial": bool(cnt["hooked_unnormalised_states"] > 0 or any(mask)), "violations": viol[:4], "counters": cnt, "max": worst,
+            "sample": {"kind": "hooked", "mask": mask, "noise": nk, "fill_results_observed": len(rec)} if case["idx"] % 6 == 0 else None}
+
+
 def run_case(case):
-    return _direct(case) if case["kind"] == "direct" else _insitu(case)
+    return _direct(case) if case["kind"] == "direct" else _insitu(case) if case["kind"] == "insitu" else _hooked(case)
